@@ -78,8 +78,8 @@ TOKENS = [
     ("parts_push", re.compile(r"\bparts\.push_back\s*\(")),
     ("parts_store", re.compile(r"\bparts\s*\[\s*(\w+)\s*\]\s*=(?!=)")),
     ("parts_size", re.compile(r"\bparts\.size\s*\(\s*\)")),
-    ("done_inc", re.compile(r"\bparts_done\s*\+\+|\+\+\s*parts_done")),
-    ("new_part", re.compile(r"\bnew\s+StringDictionaryHASHRPDAC\s*\(")),
+    ("inc", re.compile(r"\b(\w+)\s*\+\+(?!\+)|\+\+\s*(\w+)")),
+    ("new_part", re.compile(r"\bnew\s+StringDictionaryHASHRPDAC\s*\(|\bprocess_iterator_work\s*\(")),
 ]
 
 
@@ -121,11 +121,13 @@ def events(body):
         elif name == "call":
             out.append("Call " + norm(m.group(1)))
         elif name == "parts_store":
-            out.append("PartsStore[%s]" % m.group(1))
+            out.append("PartsStore")
+        elif name == "inc":
+            out.append("Inc " + (m.group(1) or m.group(2)))
         else:
             out.append({"else": "Else", "break": "Break", "continue": "Continue", "open": "Open", "close": "Close",
                         "push": "QPush", "front": "QFront", "popfront": "QPopFront", "writestop": "WriteStopped",
-                        "parts_push": "PartsPush", "parts_size": "PartsSize", "done_inc": "PartsDoneInc",
+                        "parts_push": "PartsPush", "parts_size": "PartsSize",
                         "new_part": "BuildBlock"}[name])
     return out
 
@@ -148,6 +150,50 @@ def collapse(ev):
     return ev
 
 
+def normalise_ctor(ev):
+    """The block constructor: conditions of its if/while statements concern the consumption of the input, not the
+    synchronisation, and local names are free: keep only the shape.  An increment inside the task lambda (the region opened
+    after `Call wpool.add_task`) is the completion counter; increments elsewhere are input bookkeeping (dropped).  The wait
+    predicate is normalised to DONE==parts.size()."""
+    out = []
+    depth = 0
+    task_depth = None
+    pending_task = False
+    for e in ev:
+        if e == "Open":
+            depth += 1
+            if pending_task:
+                task_depth = depth
+                pending_task = False
+        if e.startswith("If("):
+            out.append("If")
+        elif e.startswith("While("):
+            out.append("While")
+        elif e.startswith("For("):
+            out.append("For")
+        elif e.startswith("Inc "):
+            if task_depth is not None:
+                out.append("PartsDoneInc")
+        elif e.startswith("Wait "):
+            out.append(re.sub(r"pred\((\w+)==parts\.size\(\)\)", "pred(DONE==parts.size())", e))
+        elif e == "Call wpool.add_task":
+            out.append(e)
+            pending_task = True
+        else:
+            out.append(e)
+        if e == "Close":
+            if task_depth is not None and depth == task_depth:
+                task_depth = None
+            depth -= 1
+    # drop control-flow markers that guard nothing (their bodies were empty after filtering)
+    res = []
+    for i, e in enumerate(out):
+        if e in ("If", "While", "For") and (i + 1 >= len(out) or out[i + 1] != "Open"):
+            continue
+        res.append(e)
+    return res
+
+
 def method_body(src, signature_rx):
     m = re.search(signature_rx, src)
     if not m:
@@ -158,31 +204,58 @@ def method_body(src, signature_rx):
 
 
 WORKER_METHODS = [
-    ("WorkerQueue::add_task", r"void\s+add_task\s*\(\s*std::function<void\(\)>\s*&\s*fun\s*\)\s*\{"),
-    ("WorkerQueue::empty", r"bool\s+empty\s*\(\s*\)\s*\{"),
-    ("WorkerQueue::pop", r"std::function<void\(\)>\s+pop\s*\(\s*\)\s*\{"),
-    ("Worker::stopped", r"bool\s+stopped\s*\(\s*\)\s*\{"),
-    ("Worker::set_stopped", r"void\s+set_stopped\s*\(\s*bool\s+\w+\s*\)\s*\{"),
-    ("Worker::stop", r"void\s+stop\s*\(\s*\)\s*\{"),
-    ("Worker::join", r"void\s+join\s*\(\s*\)\s*\{"),
-    ("Worker::run", r"void\s+run\s*\(\s*\)\s*\{"),
-    ("WorkerPool::add_task", r"void\s+add_task\s*\(\s*std::function<void\(\)>\s*&&\s*task\s*\)\s*\{"),
-    ("WorkerPool::wait_workers", r"void\s+wait_workers\s*\(\s*\)\s*\{"),
-    ("WorkerPool::stop_all_workers", r"void\s+stop_all_workers\s*\(\s*\)\s*\{"),
+    # (name in the skeleton, class, method name, disambiguating parameter text or None)
+    ("WorkerQueue::add_task", "WorkerQueue", "add_task", None),
+    ("WorkerQueue::empty", "WorkerQueue", "empty", None),
+    ("WorkerQueue::pop", "WorkerQueue", "pop", None),
+    ("Worker::stopped", "Worker", "stopped", None),
+    ("Worker::set_stopped", "Worker", "set_stopped", None),
+    ("Worker::stop", "Worker", "stop", None),
+    ("Worker::join", "Worker", "join", None),
+    ("Worker::run", "Worker", "run", None),
+    ("WorkerPool::add_task", "WorkerPool", "add_task", None),
+    ("WorkerPool::wait_workers", "WorkerPool", "wait_workers", None),
+    ("WorkerPool::stop_all_workers", "WorkerPool", "stop_all_workers", None),
 ]
+
+
+def class_body(src, cls):
+    m = re.search(r"\bclass\s+%s\b[^;{]*\{" % cls, src)
+    if not m:
+        return None
+    i = m.end() - 1
+    return src[i:match_brace(src, i) + 1]
+
+
+def method_in_class(src, cls, name):
+    """body of method `name` of class `cls`, whatever its parameter list / return type / qualifiers look like"""
+    body = class_body(src, cls)
+    if body is None:
+        return None
+    for m in re.finditer(r"\b%s\s*\(" % re.escape(name), body):
+        # a definition: the parameter list is followed (after optional qualifiers) by '{'; a call is followed by ';' or an operator
+        j = match_paren(body, m.end() - 1)
+        k = j + 1
+        mm = re.match(r"\s*(const|noexcept|override|final|\s)*\{", body[k:])
+        # must not be preceded by '.', '->' (a call on an object) or 'return'
+        before = body[max(0, m.start() - 12):m.start()]
+        if mm and not re.search(r"(\.|->|return\s)$", before.rstrip() + (" " if before.endswith(" ") else "")):
+            i = k + mm.end() - 1
+            return body[i:match_brace(body, i) + 1]
+    return None
 
 
 def translate():
     res = []
     problems = []
     w = strip_comments(open(os.path.join(REPO, "parallel", "Worker.hpp"), "rb").read().decode(errors="replace").replace("\r", ""))
-    for name, rx in WORKER_METHODS:
-        b = method_body(w, rx)
+    for name, cls, meth, _ in WORKER_METHODS:
+        b = method_in_class(w, cls, meth)
         if b is None:
             problems.append(name)
             res.append((name, ["MISSING"]))
         else:
-            res.append((name, collapse(events(b))))
+            res.append((name, collapse([e for e in events(b) if not e.startswith("Inc ")])))
     # mutexes / condition variables declared in Worker.hpp (a new one would be a new synchronisation object)
     decl = sorted(set(re.findall(r"std::(?:mutex|condition_variable)\s*&?\s*(\w+)\s*;", w)))
     res.append(("Worker.hpp::sync_objects", decl))
@@ -195,8 +268,14 @@ def translate():
     else:
         i = b.index("{", m.end())
         body = b[i:match_brace(b, i) + 1]
-        ev = [e for e in events(body) if not e.startswith("If(next_string_length") and not e.startswith("If(sample_next")]
-        res.append(("Blocks::constructor", collapse(ev)))
+        ev = normalise_ctor(events(body))
+        while True:
+            ev2 = collapse(ev)
+            ev2 = [e for i, e in enumerate(ev2) if not (e in ("If", "While", "For") and (i + 1 >= len(ev2) or ev2[i + 1] != "Open"))]
+            if ev2 == ev:
+                break
+            ev = ev2
+        res.append(("Blocks::constructor", ev))
     return res, problems
 
 
